@@ -117,7 +117,14 @@ def run_specs(prop, specs, seed, workers=None, level='model_checking',
                 cr.harness_errors.append(str(e)[-1500:])
                 continue
             if k is not None:
-                if out['keys'] != key_chain(r, k):
+                chain = key_chain(r, k)
+                exp_sts = [r.status_into.get(x) for x in chain[1:]]
+                if out['keys'] == chain and out['statuses'] != exp_sts:
+                    cr.harness_errors.append(
+                        'NONDETERMINISM: fresh-process replay of %s gives '
+                        'job statuses %s, the long-lived explorer saw %s' % (
+                            h, out['statuses'], exp_sts))
+                elif out['keys'] != key_chain(r, k):
                     cr.harness_errors.append(
                         'NONDETERMINISM: fresh-process replay of %s diverges '
                         'from the explored path (%s vs %s)' % (
